@@ -176,6 +176,7 @@ package domain
 //@   ensures calls(AddI) <= 1 && (calls(AddI) == 1 ==> arg(AddI, 0, 0) == m && result == ret(AddI, 0))
 
 //@ func NewMixMatcher [C12]
+//@   log NewMixMatcher
 //@   ensures result != nil && fresh(result)
 //@ func NewFullMatcher [C12]
 //@   ensures result != nil && fresh(result) && result.m != nil && len(result.m) == 0
@@ -191,6 +192,7 @@ package domain
 // skipped, anything else is loaded as exactly one rule; the first bad rule stops the load with an
 // error; at the end the scanner's own error is returned.
 //@ func LoadFromTextReader [C12]
+//@   log loadFromTextReader
 //@   wraparound
 //@   requires m != nil && r != nil
 //@   modifies *
@@ -202,3 +204,13 @@ package domain
 //@     each iter_calls(scanScan) == 1 && iter_ret(scanScan, 0) && iter_calls(scanText) == 1 && iter_calls(RemoveComment) == 1 && iter_arg(RemoveComment, 0, 0) == iter_ret(scanText, 0) && iter_arg(RemoveComment, 0, 1) == "#"
 //@     each len(tsp(iter_ret(RemoveComment, 0))) == 0 ==> iter_calls(loadRule) == 0
 //@     each len(tsp(iter_ret(RemoveComment, 0))) != 0 ==> iter_calls(loadRule) == 1 && iter_arg(loadRule, 0, 0) == m && iter_arg(loadRule, 0, 1) == tsp(iter_ret(RemoveComment, 0)) && iter_ret(loadRule, 0) == nil
+
+// The default rule type of a set (C12: "rules without prefix use the set's default type").
+//@ func (m *MixMatcher) SetDefaultMatcher [C12]
+//@   log setDefaultMatcher
+//@   requires m != nil
+//@   modifies m.defaultMatcher
+//@   ensures m.defaultMatcher == s
+// domain_set and the sequence's qname matcher: a bare rule is a 'domain:' rule.
+//@ func NewDomainMixMatcher [C12]
+//@   ensures result != nil && fresh(result) && result.defaultMatcher == "domain"
